@@ -74,7 +74,25 @@ def trxH (j : Json) : R Json := do
     chans (baud.zip args)
   return Json.arr rows.toArray
 
+def jTrxFig (t : TrxFig Float) : Json :=
+  Json.arr #[jF t.rawOsnr, jF t.rawNli, jF t.rawSnr, jF t.rawOsnr01, jF t.rawSnr01,
+             jF t.osnr, jF t.nli, jF t.snr, jF t.osnr01, jF t.snr01]
+
+/-- `_calc_snr` followed by a sequence of `update_snr` calls; per channel: the figures after every call
+(`calls[i]` = the argument lists channel i saw, one per call) -/
+def trxSeqH (j : Json) : R Json := do
+  let chans ← fList getChan j "chans"
+  let baud ← fList getF j "baud"
+  let calls ← fList (getList (getList getF)) j "calls"
+  let rows := List.zipWith (fun c bc =>
+      let t0 := TrxFig.calc c bc.1
+      let states := (bc.2.foldl (fun (acc : TrxFig Float × List (TrxFig Float)) a =>
+        let t := acc.1.update bc.1 a
+        (t, t :: acc.2)) (t0, [t0])).2.reverse
+      jList jTrxFig states) chans (baud.zip calls)
+  return Json.arr rows.toArray
+
 def handlers : List (String × Handler) :=
-  [("c01.run", runH), ("c01.demux", demuxH), ("c01.mux", muxH), ("c01.trx", trxH)]
+  [("c01.run", runH), ("c01.demux", demuxH), ("c01.mux", muxH), ("c01.trx", trxH), ("c01.trxseq", trxSeqH)]
 
 end Gnpy.Drv.C01
